@@ -5,6 +5,7 @@ import ast
 import asyncio
 import copy
 
+import core
 import stream_common as sc
 
 ID = "C12"
@@ -207,15 +208,73 @@ def _roots(t):
         yield from _roots(c)
 
 
+# ---------------------------------------------------------------- dataset roots that carry arguments (outside the stream model)
+
+def root_args_oracle(ctx):
+    """Backends put arguments on their EventDataset(...) root (file names, another query).  The executor that runs is still
+    the one of the dataset OBJECT at the root of the stream, once, and value() hands back what it returned or raised."""
+    from func_adl import EventDataset
+
+    class ArgDS(EventDataset):
+        def __init__(self, tag, extra, boom=None):
+            super().__init__()
+            self.tag, self.calls, self.boom = tag, [], boom
+            self.query_ast.args.extend(extra)        # type: ignore
+
+        async def execute_result_async(self, a, title=None):
+            self.calls.append((ast.dump(a), title))
+            if self.boom is not None:
+                raise self.boom
+            return ("ran", self.tag)
+
+    plain = ArgDS("plain", [])
+    inner_q = plain.Select("lambda e: e.x").query_ast
+    boom = KeyError("from the executor")
+    cases = [("one-constant", [ast.Constant(value="file.root")], None), ("two-constants", [ast.Constant(value="a"), ast.Constant(value=2)], None),
+             ("list-argument", [ast.List(elts=[ast.Constant(value="f1"), ast.Constant(value="f2")], ctx=ast.Load())], None),
+             ("name-argument", [ast.Name(id="files", ctx=ast.Load())], None),
+             ("raising", [ast.Constant(value="file.root")], boom)]
+    chains = [("bare", lambda d: d), ("select", lambda d: d.Select("lambda e: e.x")), ("where-select", lambda d: d.Where("lambda e: e.x > 1").Select("lambda e: e.y")),
+              ("metadata", lambda d: d.MetaData({"k": 1}).Select("lambda e: e.x")), ("qmetadata", lambda d: d.QMetaData({"q": 1}).Select("lambda e: e.x")),
+              ("terminal", lambda d: d.Select("lambda e: e.x").AsAwkwardArray(["c"]))]
+    for cname, extra, exc in cases:
+        for chname, mk in chains:
+            ds = ArgDS(cname, [copy.deepcopy(x) for x in extra], exc)
+            others = [plain]
+            before = [len(o.calls) for o in others]
+            ctx.evaluations += 1
+            w = {"oracle": "root-args", "root": cname, "chain": chname}
+            try:
+                s = mk(ds)
+                try:
+                    got = ("returned", s.value(title="t1"))
+                except BaseException as ex:  # noqa
+                    got = ("raised", ex)
+            except BaseException as ex:  # noqa
+                got = ("build-raised", ex)
+            want = ("raised", exc) if exc is not None else ("returned", ("ran", cname))
+            ok = got[0] == want[0] and (got[1] is want[1] if exc is not None else got[1] == want[1])
+            if not ok or len(ds.calls) != 1 or [len(o.calls) for o in others] != before or ds.calls[0][1] != "t1":
+                ctx.fail("failing-input", "dataset root with arguments (%s), chain %s: value() %s %r; executor of the root dataset ran %d time(s), "
+                         "other datasets' executors %s time(s); expected %s" % (
+                             cname, chname, got[0], got[1], len(ds.calls), [len(o.calls) - b for o, b in zip(others, before)], want), w,
+                         key=core.digest({"p": ID, "root-args": cname, "chain": chname}))
+    ctx.count("root_args", "cases:%d" % (len(cases) * len(chains)))
+    del inner_q
+
+
 def run(ctx):
     sc.check_histories(ctx, ID, histories(ctx), "history")
     tree_correspondence(ctx)
     gather_oracle(ctx)
+    root_args_oracle(ctx)
 
 
 def replay(ctx, w):
     if w.get("oracle") == "gather":
         gather_oracle(ctx)
+    elif w.get("oracle") == "root-args":
+        root_args_oracle(ctx)
     elif w.get("oracle") == "tree" or w.get("correspondence") == "tree":
         tree_correspondence(ctx)
     else:
